@@ -39,12 +39,16 @@
 
 /* ---- calibrated thresholds ----
  * Calibration run: thorough tier, part dec, unchanged tree (2026-09-29): all 2916 DTX-on configurations of the full grid x silence
- * lengths 40 ms .. 1.2 s on the 40 ms grid (67 068 streams, each decoded as given and with DTX packets as losses).
- *   gap:   loudest decoder output over DTX packets  = -45.9 dB relative to the decoded pre-gap activity -> limit -30 dB (15.9 dB margin; DESIGN asks for 30 dB)
- *   after: renewed activity relative to pre-gap level = -4.0 .. +5.6 dB                                  -> limit +-9 dB (>= 3 dB margin)
+ * lengths 40 ms .. 1.2 s on the 40 ms grid, plus resumption inside the frame after 280 / 500 ms of silence at every intra-frame
+ * offset, two channels / one channel active (108 864 streams, each decoded as given and with DTX packets as losses).
+ *   gap:    loudest decoder output over DTX packets     = -45.9 dB relative to the decoded pre-gap activity -> limit -30 dB (DESIGN asks for 30 dB)
+ *   after:  renewed activity relative to pre-gap level  = -4.0 .. +5.6 dB                    -> limit +-9 dB  (>= 3 dB margin)
+ *   after, one of two channels active                   = -7.2 .. -1.4 dB                    -> limit +-12 dB (>= 3 dB margin)
+ *   resume: loud part of the first frame of renewed activity (from 10 ms after the resumption) >= -18.5 dB -> limit -25 dB
  * (the cal_* counters of every run report the observed extremes as milli-dB + 200000) */
 #define GAP_DB    30.0   /* gap at least this far below the active level */
-#define RESUME_DB 25.0   /* loud part of the first frame of renewed activity at most this far below the pre-gap level (provisional) */
+#define RESUME_DB 25.0   /* loud part of the first frame of renewed activity at most this far below the pre-gap level */
+#define AFTER_DB_ONECH 12.0 /* same, when the renewed activity has only one of two channels active (pre-gap level is two-channel) */
 #define AFTER_DB  9.0    /* renewed activity within this many dB of the pre-gap level */
 
 #ifdef FIXED_POINT
@@ -97,16 +101,16 @@ static void mk_signals(void){
 }
 
 /* ---- exploration context ---- */
-typedef struct { int since,run,seen,last_active; } mon_t;    /* times in half ms */
+typedef struct { int since,run,seen,last_active,extra; } mon_t;    /* times in half ms */
 #define MAXLVL 6
 typedef struct {
    cfg_t c; int k,gs,P,W,Lt,Lt0,encsz,n1,passidx,mixed; int swo[MAXLVL+1]; int swone[MAXLVL+1]; OpusEncoder *enc[MAXLVL+1]; mon_t mon[MAXLVL+1]; int sw[MAXLVL+1]; int nsw;
    long nfail; int decmode;
 } ctx_t;
 
-static mc_ctr *c_dtxmode[3],*c_mixed;
+static mc_ctr *c_dtxmode[3],*c_mixed,*c_advlate,*c_advlate_max;
 static mc_ctr *c_sched,*c_enc,*c_eval,*c_dtxpk,*c_refresh,*c_cfg,*c_maxrun,*c_dec,*c_decpk;
-static mc_ctr *c_gapmax_mdB,*c_aftermin_mdB,*c_aftermax_mdB,*c_resmin_mdB;
+static mc_ctr *c_gapmax_mdB,*c_aftermin_mdB[2],*c_aftermax_mdB[2],*c_resmin_mdB;
 static mc_set *S_states,*S_obs;
 static int g_hash_states=1;
 
@@ -159,7 +163,10 @@ static int step2(ctx_t *x,OpusEncoder *e,mon_t *m,int active,int mixo,int onech,
    } else {
       if (loud){
          if (!m->last_active && tiny && !why) why = mixo>0 ? "resume_not_coded_mixed" : "resume_not_coded";
-         m->since = (mixo>0 && !active) ? T-mixo : 0; m->seen=0; kind = tiny?5:(mixo>0?6:0);
+         /* the 200 ms mark is counted from the end of the last frame that contains activity (the encoder is handed frames; a frame that
+            is not digitally silent is not 'digital silence' input).  extra = silence already elapsed inside a frame that turned silent:
+            used for an advisory statistic only (onset later than 200 ms + T measured from the true end of activity) */
+         m->since=0; m->extra=(mixo>0 && !active) ? T-mixo : 0; m->seen=0; kind = tiny?5:(mixo>0?6:0);
       } else {
          if (!m->seen) m->since=start+T;
          if (tiny){
@@ -168,6 +175,7 @@ static int step2(ctx_t *x,OpusEncoder *e,mon_t *m,int active,int mixo,int onech,
             m->seen=1;
          } else {
             if (c->analysis && !m->seen && start>400 && !why) why="onset_late";
+            else if (c->analysis && !m->seen && start+m->extra>400){ MC_INC(c_advlate); MC_MAX(c_advlate_max,start+m->extra-400); }
             kind = m->seen?3:1; if (m->seen && m->run>0) MC_INC(c_refresh);
          }
       }
@@ -184,6 +192,7 @@ static int step2(ctx_t *x,OpusEncoder *e,mon_t *m,int active,int mixo,int onech,
    if (why){
       x->nfail++;
       snprintf(sig,sizeof sig,"e2:%s:%s",why,!c->dtx?"dtxoff":c->analysis?"opusdtx":"noanalysis");
+      if (getenv("C20_DUMP")) fprintf(stderr,"DUMP %s Fs=%d ch=%d app=%s cx=%d T=%g %s rate=%d sw=%s frame@%g mixo=%g active=%d n=%d since=%g\n",sig,c->Fs,c->ch,APPN[c->ai],c->cx,T/2.0,c->vbr?"VBR":"CBR",c->rate,swstr(x),(fidx-x->W)*T/2.0,mixo/2.0,active,n,start/2.0);
       mc_fail(sig,"[%s] switch points at %s (after a %g ms active warm-up): %s frame at %g ms%s: opus_encode=%d bytes (%s) OPUS_GET_IN_DTX=%d; silent for %g ms before this frame, DTX run now %g ms",
               c->name,swstr(x),x->W*T/2.0,mixo>0?(active?"MIXED silence->ACTIVE":"MIXED active->silence"):active?"ACTIVE":"silent",(fidx-x->W)*T/2.0,(onech&&loud)?" (one channel active)":"",n,n>0?mc_hex(pkt,n<8?n:8):"",dtx,start/2.0,m->run/2.0);
    }
@@ -258,9 +267,10 @@ static void dec_schedule(ctx_t *x,int bframes,int mixo,int onech){
          if (g>-GAP_DB){ mc_fail(v?"dec:gap_loud:as_loss":"dec:gap_loud:as_given","[%s] silence of %g ms: decoder output over the %d DTX packets (%s) is only %.1f dB below the decoded active level (limit %.0f dB)",c->name,bframes*T/2.0,ndtx,v?"fed as losses":"fed as given",-g,GAP_DB); x->nfail++; } }
       if (n_res>0){ double r=dB(e_res[v]/n_res,pre); MC_MAX(c_resmin_mdB,(long)(-r*1000)+200000);
          if (r<-RESUME_DB){ mc_fail(v?"dec:resume_frame_inaudible:as_loss":"dec:resume_frame_inaudible:as_given","[%s] silence of %g ms, activity resumes %g ms into the next frame%s: the decoded output of that frame (from 10 ms after the resumption) is %.1f dB below the decoded pre-gap level (limit %.0f dB) - the frame of renewed activity was not coded",c->name,bframes*T/2.0,mixo/2.0,onech?" (one channel active)":"",-r,RESUME_DB); x->nfail++; } }
-      if (n_after>0){ double a=dB(e_after[v]/n_after,pre); MC_MAX(c_aftermax_mdB,(long)(a*1000)+200000); MC_MAX(c_aftermin_mdB,(long)(-a*1000)+200000);
-         if (a<-AFTER_DB){ mc_fail(v?"dec:after_weak:as_loss":"dec:after_weak:as_given","[%s] silence of %g ms (%d DTX packets %s): renewed activity decodes %.1f dB below the pre-gap level (limit %.0f dB)",c->name,bframes*T/2.0,ndtx,v?"fed as losses":"fed as given",-a,AFTER_DB); x->nfail++; }
-         if (a> AFTER_DB){ mc_fail(v?"dec:after_loud:as_loss":"dec:after_loud:as_given","[%s] silence of %g ms (%d DTX packets %s): renewed activity decodes %.1f dB above the pre-gap level (limit %.0f dB)",c->name,bframes*T/2.0,ndtx,v?"fed as losses":"fed as given",a,AFTER_DB); x->nfail++; } }
+      if (n_after>0){ double a=dB(e_after[v]/n_after,pre), lim=onech?AFTER_DB_ONECH:AFTER_DB;
+         MC_MAX(c_aftermax_mdB[onech],(long)(a*1000)+200000); MC_MAX(c_aftermin_mdB[onech],(long)(-a*1000)+200000);
+         if (a<-lim){ mc_fail(v?"dec:after_weak:as_loss":"dec:after_weak:as_given","[%s] silence of %g ms (%d DTX packets %s), resumption %g ms into the frame%s: renewed activity decodes %.1f dB below the pre-gap level (limit %.0f dB)",c->name,bframes*T/2.0,ndtx,v?"fed as losses":"fed as given",mixo/2.0,onech?" (one channel active)":"",-a,lim); x->nfail++; }
+         if (a> lim){ mc_fail(v?"dec:after_loud:as_loss":"dec:after_loud:as_given","[%s] silence of %g ms (%d DTX packets %s), resumption %g ms into the frame%s: renewed activity decodes %.1f dB above the pre-gap level (limit %.0f dB)",c->name,bframes*T/2.0,ndtx,v?"fed as losses":"fed as given",mixo/2.0,onech?" (one channel active)":"",a,lim); x->nfail++; } }
    }
 done:
    x->gs=gs; }
@@ -387,9 +397,9 @@ int main(int argc,char **argv){
    cfgset=(int)mc_arg("--cfgset",0); g_hash_states=(int)mc_arg("--hash",1);
    c_sched=mc_counter("schedules"); c_enc=mc_counter("encodes"); c_eval=mc_counter("evaluations"); c_dtxpk=mc_counter("dtx_packets"); c_refresh=mc_counter("refresh_packets");
    c_dtxmode[0]=mc_counter("dtx_packets_silk_toc"); c_dtxmode[1]=mc_counter("dtx_packets_hybrid_toc"); c_dtxmode[2]=mc_counter("dtx_packets_celt_toc");
-   c_mixed=mc_counter("mixed_frames");
+   c_mixed=mc_counter("mixed_frames"); c_advlate=mc_counter("adv_late_vs_true_stop_frames"); c_advlate_max=mc_counter("adv_late_vs_true_stop_max_q1");
    c_cfg=mc_counter("configurations"); c_maxrun=mc_counter("max_dtx_run_q1"); c_dec=mc_counter("decoded_streams"); c_decpk=mc_counter("decoded_packets");
-   c_gapmax_mdB=mc_counter("cal_gap_max_mdB_plus200000"); c_aftermin_mdB=mc_counter("cal_after_min_neg_mdB_plus200000"); c_aftermax_mdB=mc_counter("cal_after_max_mdB_plus200000"); c_resmin_mdB=mc_counter("cal_resume_min_neg_mdB_plus200000");
+   c_gapmax_mdB=mc_counter("cal_gap_max_mdB_plus200000"); c_aftermin_mdB[0]=mc_counter("cal_after_min_neg_mdB_plus200000"); c_aftermax_mdB[0]=mc_counter("cal_after_max_mdB_plus200000"); c_aftermin_mdB[1]=mc_counter("cal_after1ch_min_neg_mdB_plus200000"); c_aftermax_mdB[1]=mc_counter("cal_after1ch_max_mdB_plus200000"); c_resmin_mdB=mc_counter("cal_resume_min_neg_mdB_plus200000");
    st=mc_counter("states"); tr=mc_counter("transitions"); dn=mc_counter("distinct_nontrivial");
    S_states=mc_set_new((int)mc_arg("--setlog",25)); S_obs=mc_set_new(16);
    mk_signals();
